@@ -285,6 +285,23 @@ func (g *goGen) expr(e CExpr) goVal {
 		obj, _, _ := types.LookupFieldOrMethod(t, true, g.pkg, e.F)
 		v, ok := obj.(*types.Var)
 		if !ok {
+			// unexported field of a struct type of another package: read it
+			// through a mirror struct of identical layout
+			if nt, isN := t.(*types.Named); isN && nt.Obj().Pkg() != nil && nt.Obj().Pkg() != g.pkg {
+				if s, isS := structOf(t); isS {
+					for i := 0; i < s.NumFields(); i++ {
+						if f := s.Field(i); f.Name() == e.F && !f.Embedded() {
+							xc := x.code
+							if _, isPtr := types.Unalias(x.t).Underlying().(*types.Pointer); isPtr {
+								xc = "*" + xc
+							}
+							ft := g.rend.typeStr(f.Type())
+							code := fmt.Sprintf("func() %s { v := %s; return (*%s)(unsafe.Pointer(&v)).%s }()", ft, xc, g.rend.mirror(t), e.F)
+							return goVal{code: code, t: f.Type()}
+						}
+					}
+				}
+			}
 			gounsup("no field %s", e.F)
 		}
 		return goVal{code: x.code + "." + e.F, t: v.Type()}
@@ -635,7 +652,26 @@ func (g *goGen) call(e *CCall) goVal {
 			return goVal{code: "govcShl(govcB(1), " + g.idx(arg(0)) + ")", big: true}
 		}
 		gounsup("pow2 in bv mode")
-	case "ref", "off", "fresh", "update", "typeis", "unbox", "deref":
+	case "typeis", "unbox":
+		x := arg(0)
+		tyname := strings.Trim(e.Args[1].String(), `"`)
+		if s, ok := e.Args[1].(*CStr); ok {
+			tyname = s.V
+		}
+		sc := &specCtx{vc: g.rend.vc, pkg: g.pkg}
+		if sc.vc == nil {
+			gounsup("%s is not executable here", e.F)
+		}
+		t := sc.namedType(tyname)
+		if t == nil {
+			gounsup("%s: unknown type %s", e.F, tyname)
+		}
+		ts := g.rend.typeStr(t)
+		if e.F == "typeis" {
+			return goVal{code: "func() bool { _, ok := any(" + x.code + ").(" + ts + "); return ok }()", t: boolT}
+		}
+		return goVal{code: "any(" + x.code + ").(" + ts + ")", t: t}
+	case "ref", "off", "fresh", "update", "deref":
 		gounsup("%s is not executable", e.F)
 	}
 	if sf := g.eng.specFn(g.pkg, e.F); sf != nil {
